@@ -12,10 +12,260 @@ EXPR_CHILD_KEYS = ("f", "recv", "e", "l", "r", "cond", "then", "else", "scrut",
 LIST_KEYS = ("args", "es")
 
 
+_NAMES = None
+
+
+def _baseline_names():
+    global _NAMES
+    if _NAMES is None:
+        p = os.path.join(os.path.dirname(os.path.dirname(os.path.abspath(__file__))), "names.json")
+        try:
+            with open(p) as fh:
+                _NAMES = json.load(fh)
+        except OSError:
+            _NAMES = {}
+    return _NAMES
+
+
+def apply_renames(d):
+    """A private function that was only RENAMED is read under its reviewed name. rules/names.json lists the functions of the reviewed tree; a private
+    function of that list that no longer exists and a private function that is new, in the same module / impl, are the same function when their
+    signatures are identical (unique match), or - for one missing and one new function - when a reviewed caller of the old one calls the new one.
+    Every occurrence of the new path in the facts (definitions, callees, closure names, types) is rewritten to the reviewed path, so that rules that
+    name a private helper do not depend on what it is called. Returns {new path: reviewed path}."""
+    both = _baseline_names().get(d.get("crate"), {})
+    base = both.get("fns", {})
+    if not base:
+        return {}
+    renamed = _apply_module_renames(d, base, both.get("adts", {}))
+    renamed.update(_apply_fn_renames(d, base))
+    renamed.update(_apply_adt_renames(d, both.get("adts", {})))
+    return renamed
+
+
+def _apply_module_renames(d, base_fns, base_adts):
+    """a module / impl block / outer function whose items all moved, with their own names unchanged, to a prefix that is new: the prefix was renamed"""
+    crate = d["crate"]
+    cur_items = {b["path"] for b in d["bodies"] if b.get("dk") in ("Fn", "AssocFn")} | {a["path"] for a in d["adts"]}
+    base_items = set(base_fns) | set(base_adts)
+
+    def by_parent(items):
+        out = {}
+        for p in items:
+            if "::" in p:
+                par, leaf = p.rsplit("::", 1)
+                out.setdefault(par, set()).add(leaf)
+        return out
+    bp, cp = by_parent(base_items), by_parent(cur_items)
+    pairs = {}
+    for pm, leaves in bp.items():
+        if pm in cp or not leaves:
+            continue
+        hits = [pn for pn, l2 in cp.items() if pn not in bp and l2 == leaves and pn.rsplit("::", 1)[0] == pm.rsplit("::", 1)[0]]
+        rivals = [p2 for p2, l2 in bp.items() if p2 != pm and p2 not in cp and l2 == leaves and p2.rsplit("::", 1)[0] == pm.rsplit("::", 1)[0]]
+        if len(hits) == 1 and not rivals:
+            pairs[hits[0]] = pm
+    if not pairs:
+        return {}
+    sp = dict(pairs)
+    sp.update({n.split("::", 1)[1]: m.split("::", 1)[1] for n, m in pairs.items() if n.startswith(crate + "::") and m.startswith(crate + "::")})
+    _rewrite_strings(d, sp)
+    return pairs
+
+
+def _rewrite_strings(d, pairs):
+    """every occurrence of a key of `pairs` (a `::`-path, not preceded / followed by further path or identifier characters) in any string of d
+    is replaced by its value"""
+    import re as _re
+    rx = _re.compile(r"(?<![A-Za-z0-9_:])(" + "|".join(_re.escape(n) for n in sorted(pairs, key=len, reverse=True)) + r")(?![A-Za-z0-9_])")
+
+    def fix(x):
+        if isinstance(x, str):
+            return rx.sub(lambda mm: pairs[mm.group(1)], x) if "::" in x else x
+        if isinstance(x, list):
+            for i, v in enumerate(x):
+                if isinstance(v, (str, list, dict)):
+                    x[i] = fix(v)
+            return x
+        if isinstance(x, dict):
+            for k, v in x.items():
+                if isinstance(v, (str, list, dict)):
+                    x[k] = fix(v)
+            return x
+        return x
+    fix(d)
+
+
+def _apply_adt_renames(d, base):
+    """the same for private types, their variants and their private fields: a missing private type and a new private type of the same module with
+    the same shape are one type; in a type that is still there, a variant / private field whose position and field types are unchanged but
+    whose name is new is that variant / field."""
+    if not base:
+        return {}
+    crate = d["crate"]
+    out = {}
+
+    def rel(p):
+        return p.split("::", 1)[1] if p.startswith(crate + "::") else p
+
+    def parent(p):
+        return p.rsplit("::", 1)[0]
+
+    def shape(path, a):
+        r = rel(path)
+        return (a.get("kind"), [[f["ty"].replace(r, "Self") for f in v["fields"]] for v in a["variants"]])
+    cur = {a["path"]: a for a in d["adts"]}
+    missing = [p for p, a in base.items() if p not in cur and not a["pub"]]
+    new = [p for p, a in cur.items() if p not in base and not a.get("pub")]
+    pairs = {}
+    for m in missing:
+        hits = [n for n in new if parent(n) == parent(m) and shape(n, cur[n]) == shape(m, base[m])]
+        rivals = [m2 for m2 in missing if m2 != m and parent(m2) == parent(m) and shape(m2, base[m2]) == shape(m, base[m])]
+        if len(hits) == 1 and not rivals:
+            pairs[hits[0]] = m
+    if pairs:
+        sp = dict(pairs)
+        sp.update({rel(n): rel(m) for n, m in pairs.items()})
+        _rewrite_strings(d, sp)
+        for a in d["adts"]:
+            if a["kind"] == "struct" and a["path"] in pairs.values() and len(a["variants"]) == 1:
+                a["variants"][0]["name"] = a["path"].rsplit("::", 1)[1]
+        out.update(pairs)
+        cur = {a["path"]: a for a in d["adts"]}
+        structs = {m for m in pairs.values() if cur.get(m, {}).get("kind") == "struct"}
+
+        def fix_variant(n):
+            if isinstance(n, dict):
+                if n.get("k") == "Struct" and n.get("adt") in structs:
+                    n["variant"] = n["adt"].rsplit("::", 1)[1]
+                for v in n.values():
+                    if isinstance(v, (dict, list)):
+                        fix_variant(v)
+            elif isinstance(n, list):
+                for v in n:
+                    fix_variant(v)
+        if structs:
+            fix_variant(d["bodies"])
+    vpairs, fren = {}, []
+    for p, a in cur.items():
+        b = base.get(p)
+        if b is None or len(b["variants"]) != len(a["variants"]):
+            continue
+        bnames, cnames = [v["name"] for v in b["variants"]], [v["name"] for v in a["variants"]]
+        for va, vb in zip(a["variants"], b["variants"]):
+            if [f["ty"] for f in va["fields"]] != [f["ty"] for f in vb["fields"]]:
+                continue
+            if va["name"] != vb["name"] and a.get("kind") == "enum" and not a.get("pub") and va["name"] not in bnames and vb["name"] not in cnames:
+                vpairs[p + "::" + va["name"]] = p + "::" + vb["name"]
+                fren.append(("variant", p, va["name"], vb["name"]))
+                va["name"] = vb["name"]
+            bf, cf = [f["name"] for f in vb["fields"]], [f["name"] for f in va["fields"]]
+            for fa, fb in zip(va["fields"], vb["fields"]):
+                if fa["name"] != fb["name"] and not fa.get("pub") and not fb.get("pub") and fa["name"] not in bf and fb["name"] not in cf:
+                    fren.append(("field", p, vb["name"], fa["name"], fb["name"]))
+                    fa["name"] = fb["name"]
+    if vpairs:
+        sp = dict(vpairs)
+        sp.update({rel(n): rel(m) for n, m in vpairs.items()})
+        _rewrite_strings(d, sp)
+        out.update(vpairs)
+    if fren:
+        strs = d["strs"]
+
+        def owner_is(n, adt):
+            o = n.get("owner")
+            o = strs[o] if isinstance(o, int) else (o or "")
+            o = o.lstrip("&").replace("mut ", "").strip()
+            return o.split("<", 1)[0] == rel(adt)
+
+        def walk_fix(n):
+            if isinstance(n, dict):
+                k = n.get("k")
+                for r in fren:
+                    if r[0] == "variant":
+                        if k == "Struct" and n.get("adt") == r[1] and n.get("variant") == r[2]:
+                            n["variant"] = r[3]
+                        continue
+                    _t, adt, var, newn, oldn = r
+                    if k == "Field" and n.get("name") == newn and owner_is(n, adt):
+                        n["name"] = oldn
+                    elif k == "Struct" and n.get("adt") == adt and n.get("variant") in (var, adt.rsplit("::", 1)[1]):
+                        for f in n.get("fields", []):
+                            if f.get("name") == newn:
+                                f["name"] = oldn
+                    elif k == "PStruct" and n.get("path") in (adt, adt + "::" + var):
+                        for f in n.get("fields", []):
+                            if f.get("name") == newn:
+                                f["name"] = oldn
+                for v in n.values():
+                    if isinstance(v, (dict, list)):
+                        walk_fix(v)
+            elif isinstance(n, list):
+                for v in n:
+                    walk_fix(v)
+        walk_fix(d["bodies"])
+        for r in fren:
+            if r[0] == "field":
+                out["%s.%s" % (r[1], r[3])] = "%s.%s" % (r[1], r[4])
+    return out
+
+
+def _apply_fn_renames(d, base):
+    strs = d["strs"]
+
+    def sig(b):
+        ins = [strs[i] if isinstance(i, int) else i for i in b.get("inputs", [])]
+        out = b.get("output")
+        return ins, (strs[out] if isinstance(out, int) else out)
+    cur = {b["path"]: b for b in d["bodies"] if b.get("dk") in ("Fn", "AssocFn")}
+    missing = [p for p, r in base.items() if p not in cur and not r["pub"]]
+    new = [p for p, b in cur.items() if p not in base and not b.get("pub")]
+    if not missing or not new:
+        return {}
+
+    def parent(p):
+        return p.rsplit("::", 1)[0]
+    pairs = {}
+    for par in sorted({parent(m) for m in missing}):
+        ms = [m for m in missing if parent(m) == par]
+        ns = [n for n in new if parent(n) == par]
+        for m in list(ms):
+            want = (base[m]["inputs"], base[m]["output"])
+            hits = [n for n in ns if list(sig(cur[n])) == [want[0], want[1]] or sig(cur[n]) == want]
+            others = [m2 for m2 in ms if m2 != m and (base[m2]["inputs"], base[m2]["output"]) == want]
+            if len(hits) == 1 and not others:
+                pairs[hits[0]] = m
+                ms.remove(m)
+                ns.remove(hits[0])
+        if len(ms) == 1 and len(ns) == 1:
+            m, n = ms[0], ns[0]
+            callers = set()
+            for b in d["bodies"]:
+                if "body" in b and _mentions_callee(b["body"], n):
+                    callers.add(b["path"])
+            if any(c == r or c.startswith(r + "::") for c in callers for r in base[m]["callers"]):
+                pairs[n] = m
+    if not pairs:
+        return {}
+    _rewrite_strings(d, pairs)
+    return pairs
+
+
+def _mentions_callee(n, path):
+    if isinstance(n, dict):
+        if n.get("callee") == path:
+            return True
+        return any(_mentions_callee(v, path) for v in n.values() if isinstance(v, (dict, list)))
+    if isinstance(n, list):
+        return any(_mentions_callee(v, path) for v in n)
+    return False
+
+
 class Crate:
     def __init__(self, path):
         with open(path) as fh:
             d = json.load(fh)
+        self.renamed = apply_renames(d)
         self.raw = d
         self.name = d["crate"]
         self.strs = d["strs"]
